@@ -137,6 +137,7 @@ type checkResult struct {
 	Inconclusive []string
 	Violations   []vioReport
 	Known        int
+	Fallback     map[string]int
 	Validated    int
 	LoadSecs     float64
 }
@@ -211,7 +212,8 @@ func runCheck(prop, tier string, seed int, only string, verbose bool, workers in
 	ex.SolverName = solver
 	if tier == "thorough" {
 		ex.Tier = 1
-		ex.TimeoutMs = 600000
+		ex.TimeoutMs = 30000
+		ex.FallbackTimeoutMs = 600000
 		ex.MaxPaths = 2_000_000
 		ex.SetXCheck("z3-new")
 	}
@@ -266,6 +268,7 @@ func runCheck(prop, tier string, seed int, only string, verbose bool, workers in
 	sort.Strings(res.Reached)
 	sort.Strings(res.NotReached)
 	res.Samples = ex.Samples
+	res.Fallback = ex.FallbackUsed
 	res.Inconclusive = append(res.Inconclusive, ex.Inconclusive...)
 	if ex.Disagree > 0 {
 		res.Inconclusive = append(res.Inconclusive, fmt.Sprintf("%d solver disagreements (primary unsat, cross-check sat)", ex.Disagree))
@@ -569,6 +572,7 @@ func writeEvidence(prop, tier string, seed int, r *checkResult) {
 		"solver_sat":                    r.NSat,
 		"solver_unsat":                  r.NUnsat,
 		"solver_unknown":                r.Unknowns,
+		"solver_fallback_decided":       r.Fallback,
 		"solver_time_s":                 r.SolverTime,
 		"load_and_ssa_build_s":          r.LoadSecs,
 		"bounds_cut_paths":              r.Bounds,
